@@ -123,7 +123,7 @@ func (s *SuffrageStateBuilder) buildBatch(
 
 	newprev := localstate
 	var previous base.State
-	var proofs []base.SuffrageProof
+	var proofs, allproofs []base.SuffrageProof
 	var provelock sync.Mutex
 
 	if err := util.BatchWork(
@@ -132,6 +132,7 @@ func (s *SuffrageStateBuilder) buildBatch(
 		s.batchlimit,
 		func(_ context.Context, last uint64) error {
 			previous = newprev
+			allproofs = append(allproofs, proofs...) // NOTE keeps the proofs of the finished batch
 
 			switch r := (last + 1) % uint64(s.batchlimit); {
 			case r == 0:
@@ -176,7 +177,7 @@ func (s *SuffrageStateBuilder) buildBatch(
 		return nil, e.Wrap(err)
 	}
 
-	return proofs, nil
+	return append(allproofs, proofs...), nil
 }
 
 func (*SuffrageStateBuilder) prove(
